@@ -2,6 +2,8 @@ package checks
 
 import (
 	"fmt"
+	"os"
+	"path/filepath"
 	"strconv"
 	"strings"
 
@@ -291,7 +293,7 @@ func C05(r *drv.Run) {
 	if !quick(r) {
 		n = 80000
 	}
-	r.Rule = "replace commands whose `with` list mixes literal strings, captures whose value differs per match, every built-in (value, matchNumber, startOffset, endOffset, lineNumber, columnNumber, totalMatches, filename), undefined names, named-loop (map valued) names and 0..2 generated transforms reading match, matchLength, captures and the match's built-ins; texts derived from the body with >= 2 matches where possible; a third of the cases under an amount clause (skip / take / top / last); one case in 25 is wide: 9..101 single-letter captures in a row, a with-list of 9..300 items (captures, strings, built-ins, undefined names, transforms), 0..33 transforms each reading one capture, counts drawn from both sides of 10, 16, 32, 64, 100, 128, 256. Oracle: (a) the replace run equals the find run of the same body in every field but Replacement; (b) each Replacement equals the concatenation computed from the find-run's match by the harness (transforms through the process-language reference interpreter). Non-trivial = a match whose expected replacement is non-empty and that carries >= 1 variable; distinct by (program, text)."
+	r.Rule = "replace commands whose `with` list mixes literal strings, captures whose value differs per match, every built-in (value, matchNumber, startOffset, endOffset, lineNumber, columnNumber, totalMatches, filename), undefined names, named-loop (map valued) names and 0..2 generated transforms reading match, matchLength, captures and the match's built-ins; texts derived from the body with >= 2 matches where possible; a third of the cases under an amount clause (skip / take / top / last); one case in 25 is wide: 9..101 single-letter captures in a row, a with-list of 9..300 items (captures, strings, built-ins, undefined names, transforms), 0..33 transforms each reading one capture, counts drawn from both sides of 10, 16, 32, 64, 100, 128, 256. Also three fixed programs through RunFiles (modes NOTHING and NEW) on files named with doubled separators, /./, sub/../ and through directory arguments with and without trailing slash: the built-in filename, as a with-item and inside a transform, is the Filename of the same match. Oracle: (a) the replace run equals the find run of the same body in every field but Replacement; (b) each Replacement equals the concatenation computed from the find-run's match by the harness (transforms through the process-language reference interpreter). Non-trivial = a match whose expected replacement is non-empty and that carries >= 1 variable; distinct by (program, text)."
 	r.Assumptions = []string{
 		"an absent Replacement and the empty string are the same replacement (a `with` list that names nothing)",
 		"transforms whose evaluation divides by zero are not judged (known finding K1); matchNumber is not used inside transforms",
@@ -389,12 +391,91 @@ func C05(r *drv.Run) {
 			}
 		}}
 	})
+	c05Files(r)
 	if r.NViolations() == 0 {
 		expensiveFloor(r)
+		if r.Counter("file_replacements_checked_under_unusual_spellings") == 0 {
+			r.Inconclusive("coverage floor: file_replacements_checked_under_unusual_spellings = 0")
+		}
 		for _, k := range []string{"replacements_checked", "replacement_differs_between_matches", "programs_with_transforms", "with_lists_of_100_or_more_items"} {
 			if r.Counter(k) == 0 {
 				r.Inconclusive("coverage floor: " + k + " = 0")
 			}
 		}
 	}
+}
+
+// c05Files: the built-in filename (as a with-item and inside a transform) is the Filename of the same match, however
+// the searched path was spelled in the call: doubled separators, /./, sub/../, a directory argument with and without
+// trailing slash, a relative name.
+func c05Files(r *drv.Run) {
+	dir := filepath.Join(r.WorkDir, "c05files")
+	os.MkdirAll(filepath.Join(dir, "sub"), 0o755)
+	content := []byte("ab 12\ncd 7 e\n")
+	for _, n := range []string{"plain.txt", "sub/inner.txt", "sub/b.txt"} {
+		os.WriteFile(filepath.Join(dir, n), content, 0o644)
+	}
+	spellings := [][]string{
+		{dir + "/plain.txt"}, {dir + "//plain.txt"}, {dir + "/./plain.txt"}, {dir + "/sub/../plain.txt"}, {dir + "/sub//inner.txt", dir + "/plain.txt"},
+		{dir + "/sub/"}, {dir + "/sub"}, {dir + "/./sub/", dir + "//plain.txt"}, {dir + "/sub/./b.txt"}, {dir + "/sub/../sub/inner.txt"},
+	}
+	progs := []struct {
+		src string
+		exp func(m *wire.Match) string
+	}{
+		{"replace all (letter = c) with filename ':' c", func(m *wire.Match) string { return m.File + ":" + flatVars(m.Vars)["c"] }},
+		{"set t1 to transform return filename + '#' + match end\nreplace all at least 1 digit with t1 '@' filename '@' t1",
+			func(m *wire.Match) string {
+				return m.File + "#" + string(m.Val) + "@" + m.File + "@" + m.File + "#" + string(m.Val)
+			}},
+		{"replace all 'cd' with startOffset filename lineNumber", func(m *wire.Match) string { return strconv.Itoa(m.S) + m.File + strconv.Itoa(m.L1) }},
+	}
+	type job struct {
+		p     int
+		files []string
+		mode  string
+	}
+	var jobs []job
+	for p := range progs {
+		for si, sp := range spellings {
+			mode := []string{"NOTHING", "NEW"}[(p+si)%2]
+			if strings.HasSuffix(sp[0], "sub") || strings.HasSuffix(sp[0], "sub/") {
+				mode = "NOTHING" // (NEW would leave outputs inside the directory that the next call searches too)
+			}
+			jobs = append(jobs, job{p, sp, mode})
+		}
+	}
+	r.Exec(len(jobs), drv.ExecOpts{Batch: 6}, func(i int) *drv.Item {
+		jb := jobs[i]
+		c := wire.Case{Op: "runfiles", Src: []byte(progs[jb.p].src), Files: jb.files, Mode: jb.mode, StepBudget: 2_000_000}
+		return &drv.Item{Case: c, Check: func(res *wire.Result) {
+			if crashOrGuard(r, res, &c, progs[jb.p].src, false) {
+				return
+			}
+			if res.Compile == nil || !res.Compile.OK || len(res.Runs) < 1 {
+				r.Inconclusive("fixed program rejected: " + progs[jb.p].src)
+				return
+			}
+			run := &res.Runs[0]
+			if run.Panic != nil {
+				r.Violate(&drv.Violation{Sig: "run-panic:" + run.Panic.Frame, Panic: run.Panic.Msg, Frame: run.Panic.Frame, Src: progs[jb.p].src, Case: &c})
+				return
+			}
+			if len(run.Matches) == 0 {
+				r.Violate(&drv.Violation{Sig: "files:no-matches", Src: progs[jb.p].src, Case: &c, Detail: map[string]any{"files": jb.files}})
+				return
+			}
+			for k := range run.Matches {
+				m := &run.Matches[k]
+				r.Eval(1)
+				if want := progs[jb.p].exp(m); string(m.Repl) != want {
+					r.Violate(&drv.Violation{Sig: "files:replacement-differs", Src: progs[jb.p].src, Case: &c,
+						Detail: map[string]any{"files": jb.files, "match": fmt.Sprintf("#%d [%d,%d) %q in %q", m.Num, m.S, m.E, m.Val, m.File), "expected": want, "observed": string(m.Repl)}})
+					return
+				}
+				r.Count("file_replacements_checked_under_unusual_spellings", 1)
+			}
+		}}
+	})
+	os.RemoveAll(dir)
 }
